@@ -5,7 +5,8 @@
      convert     : introspection.JsonConverter.GraphQLDocument on that data
    The input is the type system of the PARSED document (lib/Gql.v [schema]); the document order
    assumed is: schema block, directive definitions, type definitions (the harness prints SDL in
-   this order).  Descriptions are out of scope (always "" here).  No proofs in this file. *)
+   this order).  A document WITHOUT a schema definition is the [blk = false] case of [merge_base_doc] /
+   [generate_doc] (no roots declared; the default root operation type names apply).  Descriptions are out of scope (always "" here).  No proofs in this file. *)
 From Coq Require Import String.
 From Gv Require Import lib.Bytes lib.Json lib.Gql C17.Util C17.ValueSyntax C17.Base.
 Open Scope N_scope.
@@ -68,13 +69,17 @@ Definition add_typename (sub_name : bytes) (t : type_def) : type_def :=
   | _ => t
   end.
 
-Definition root_or_default (declared : option name) (def : bytes) (ts : list type_def) : option name :=
+(* addMissingRootOperationTypeDefinitions for mutation / subscription.  [blk] = the document has a schema
+   definition: the default root operation type names (an object type named Mutation / Subscription) then do not
+   apply (fix: root-operation-invented; before it they applied in both cases, i.e. the code behaved as [blk = false]
+   on every document) *)
+Definition root_or_default (blk : bool) (declared : option name) (def : bytes) (ts : list type_def) : option name :=
   match declared with
   | Some n => Some n
-  | None => if has_object def ts then Some def else None
+  | None => if blk then None else if has_object def ts then Some def else None
   end.
 
-Definition merge_base (S : schema) : schema :=
+Definition merge_base_doc (blk : bool) (S : schema) : schema :=
   let ts0 := s_types S ++ base_scalars ++ base_meta_types in
   let target := if has_type (s_query S) ts0 then Some (s_query S)
                 else if has_type #"Query" ts0 then Some #"Query" else None in
@@ -84,12 +89,14 @@ Definition merge_base (S : schema) : schema :=
            | [] => if has_object #"Query" ts1 then #"Query" else []
            | _ => s_query S
            end in
-  let m := root_or_default (s_mutation S) #"Mutation" ts1 in
-  let s := root_or_default (s_subscription S) #"Subscription" ts1 in
+  let m := root_or_default blk (s_mutation S) #"Mutation" ts1 in
+  let s := root_or_default blk (s_subscription S) #"Subscription" ts1 in
   let sub_name := match s with Some n => n | None => [] end in
   {| s_query := q; s_mutation := m; s_subscription := s;
      s_types := map (add_typename sub_name) (update_first tname add_introspection_fields ts1);
      s_directives := s_directives S ++ base_public_directives ++ base_internal_directives |}.
+(* a document with a schema definition -- the form every theorem is about (a well-formed [schema] names its query root) *)
+Definition merge_base (S : schema) : schema := merge_base_doc true S.
 
 (* ------------------------------------------------------------------ generator *)
 Inductive idx_entry := IdxType (k : type_kind) | IdxOther.
@@ -281,8 +288,8 @@ End Gen.
 Definition type_by_name (n : name) (ts : list itype) : option itype :=
   find_last (fun t => bytes_eqb (it_name t) n) ts.
 
-Definition generate (S : schema) : option idata :=
-  let M := merge_base S in
+Definition generate_doc (blk : bool) (S : schema) : option idata :=
+  let M := merge_base_doc blk S in
   let idx := build_index S M in
   let dds := s_directives M in
   let ts := flat_map (gen_type idx dds (s_types M)) (s_types M) in
@@ -300,6 +307,8 @@ Definition generate (S : schema) : option idata :=
               i_directives := flat_map (gen_directive idx dds) dds |}
     end
   end.
+
+Definition generate (S : schema) : option idata := generate_doc true S.
 
 (* ------------------------------------------------------------------ JSON form *)
 Definition kind_name (k : ikind) : bytes :=
